@@ -75,10 +75,14 @@ def run(ctx):
         else:
             # draws not recognisable (legitimate refactoring of the generator): the statement's own statistical clause
             noise_ppt = 0
-            v = np.array([np.mean(c ** 2) for c in comps])
-            band = 6 * math.sqrt(2.0 / n)
-            ev = {"blocks": 0, "distinct": True, "var_ppm": int(min(10 ** 9, np.max(np.abs(v / expected - 1)) * 1e6)) if expected > 0 else 0,
-                  "band_ppm": int(band * 1e6), "statistical": True}
+            # pooled over the four quadratures: 4n squared unit Gaussians; acceptance region = central chi-square interval with 1e-9 in each
+            # tail (exact quantiles - the six-sigma normal approximation is badly off for the 32-sample lattice records)
+            from scipy.stats import chi2
+            dof = 4 * n
+            v = float(sum(np.sum(c ** 2) for c in comps)) / (dof * expected) if expected > 0 else 1.0
+            lo_q, hi_q = chi2.ppf(1e-9, dof) / dof, chi2.isf(1e-9, dof) / dof
+            dev = (v - 1) / (hi_q - 1) if v >= 1 else (1 - v) / (1 - lo_q)
+            ev = {"blocks": 0, "distinct": True, "var_ppm": int(min(10 ** 9, dev * 1e6)), "band_ppm": 10 ** 6, "statistical": True}
         S_in, N_in = float(np.sum(np.abs(sin) ** 2)), float(np.sum(np.abs(nin) ** 2))
         S_out, N_out = float(np.sum(np.abs(so) ** 2)), float(np.sum(np.abs(out.noise) ** 2))
         osnr_ok = True if N_in == 0 else (S_out * N_in <= S_in * N_out * (1 + 1e-9) or not recognised)
